@@ -23,9 +23,9 @@ NPROC = int(os.environ.get('VERIF_NPROC', '0')) or min(16, os.cpu_count() or 4)
 
 def code_digest():
     try:
-        head = subprocess.run(['git', '-C', '/repo', 'rev-parse', 'HEAD'], capture_output=True,
+        head = subprocess.run(['git', '-C', os.environ.get('VERIF_REPO', '/repo'), 'rev-parse', 'HEAD'], capture_output=True,
                               text=True, timeout=20).stdout.strip()
-        diff = subprocess.run(['git', '-C', '/repo', 'diff', 'HEAD', '--', 'electrumx',
+        diff = subprocess.run(['git', '-C', os.environ.get('VERIF_REPO', '/repo'), 'diff', 'HEAD', '--', 'electrumx',
                                'electrumx_compact_history'], capture_output=True, timeout=20).stdout
         return head[:12] + ('+' + hashlib.sha256(diff).hexdigest()[:8] if diff else '')
     except Exception:
